@@ -1053,19 +1053,15 @@ fn c17_oracle(spec: &ServerSpec, run: &ServerRun) -> Vec<Violation> {
         let mut tmp = vec![];
         common_oracle(spec, run, &sv, &mut tmp, true);
         v.extend(tmp.into_iter().filter(|x| x.class == "stall"));
-        // whichever of a party's two schedule requests arrives second is the refused duplicate
-        let mut calls = run.calls.clone();
-        for i in 0..calls.len() {
-            if calls[i].what == "dup-schedule" && calls[i].ok == Some(true) {
-                if let Some(j) = (0..calls.len()).find(|j| calls[*j].what == "schedule" && calls[*j].party == calls[i].party && calls[*j].comp == calls[i].comp && calls[*j].ok == Some(false)) {
-                    calls[i].what = "schedule".into();
-                    calls[j].what = "dup-schedule".into();
-                }
-            }
-        }
-        let adjusted = ServerRun { calls, ..run.shallow_clone() };
+        // judged only when the injected request really was the second one of that party (if it comes
+        // first it *is* the schedule call, and the later one may even start the computation anew)
         for ps in &spec.policies {
-            c13_oracle_comp(spec, &adjusted, ps, &sv, &mut v);
+            let dup_first = run.calls.iter().any(|d| {
+                d.what == "dup-schedule" && d.comp == ps.comp && run.calls.iter().any(|c| c.what == "schedule" && c.party == d.party && c.comp == d.comp && c.issued_seq >= d.issued_seq)
+            });
+            if !dup_first {
+                c13_oracle_comp(spec, run, ps, &sv, &mut v);
+            }
         }
     }
     v
